@@ -138,7 +138,7 @@ typedef struct {
     uint32_t qsize; uint32_t flags;
     size_t first_op[2], n_ops[2];   /* op ranges per thread (after the definition prefix) */
     size_t ndefs;
-    int late_defs, rejected_defs;
+    int late_defs, rejected_defs, early_calls;
     int close_race; size_t race_first, race_n;   /* calls of thread 1 issued while thread 0 is inside jls_twr_close */
     char feat[200];
 } tprog_t;
@@ -179,11 +179,20 @@ static void build_tprog(tprog_t *tp, rng_t *r, const char *focus) {
         /* a signal defined while streaming (the definition call runs in the application thread, concurrently
          * with the writer thread), and definition calls that the writer rejects */
         int late_at = rng_chance(r, 1, 3) ? (int) rng_range(r, 2, nops / 2) : -1;
+        const dtype_t *late_t = &DTYPES[rng_below(r, 15)];
+        int early = late_at > 0 && rng_chance(r, 1, 2);   /* sample calls that name the late signal before it is defined: to be refused */
         for (int q = 0; q < nops; ++q) {
             int kind = (int) rng_below(r, 100);
             op_t *o;
+            if (early && q < late_at && rng_chance(r, 1, 6)) {
+                o = prog_add(p, OP_FSR); o->id = (uint16_t) (th * 10 + 5);
+                o->sid = 0; o->n = (uint32_t) rng_range(r, 1, 64 * 8 / late_t->bits + 1); o->vseed = rng_u64(r);
+                o->thread = (uint8_t) th; o->expect_reject = 7;   /* 7 = names a signal that is not defined yet */
+                tp->early_calls++;
+                continue;
+            }
             if (q == late_at) {
-                const dtype_t *t = &DTYPES[rng_below(r, 15)];
+                const dtype_t *t = late_t;
                 struct jls_signal_def_s d, nm;
                 uint16_t sid = (uint16_t) (th * 10 + 5);
                 gen_def(r, &d, sid, 1, t, DEF_MINIMAL);
@@ -273,7 +282,7 @@ static void build_tprog(tprog_t *tp, rng_t *r, const char *focus) {
         }
         tp->race_n = p->n - tp->race_first;
     }
-    snprintf(tp->feat, sizeof(tp->feat), "q=%u|drop=%d|threads=%d|late-def=%d|rej-def=%d", tp->qsize, tp->flags ? 1 : 0, tp->nthreads, tp->late_defs > 0, tp->rejected_defs > 0);
+    snprintf(tp->feat, sizeof(tp->feat), "q=%u|drop=%d|threads=%d|late-def=%d|rej-def=%d|early=%d", tp->qsize, tp->flags ? 1 : 0, tp->nthreads, tp->late_defs > 0, tp->rejected_defs > 0, tp->early_calls > 0);
     if (tp->close_race) snprintf(tp->feat + strlen(tp->feat), sizeof(tp->feat) - strlen(tp->feat), "|close-race");
 }
 
